@@ -414,25 +414,24 @@ impl Server {
         &self,
         params: RenameParams,
     ) -> Result<Option<WorkspaceEdit>, ResponseError> {
-        if self
-            .database
-            .graph()
-            .maybe_key(&params.new_name.clone().into())
-            .is_some()
-        {
-            return Result::Err(ResponseError {
-                code: 1,
-                message: format!("The file name {} is already taken", params.new_name),
-                data: None,
-            });
-        }
-
         let relative_to = &params
             .text_document_position
             .text_document
             .uri
             .to_key(&self.base_path)
             .parent();
+
+        // the new name is read like the link under the cursor: relative to the directory of
+        // the note the rename is issued from (one reading for the guard, the patch and the edits)
+        let new_key = Key::from_rel_link_url(&params.new_name, relative_to);
+
+        if self.database.graph().maybe_key(&new_key).is_some() {
+            return Result::Err(ResponseError {
+                code: 1,
+                message: format!("The file name {} is already taken", params.new_name),
+                data: None,
+            });
+        }
 
         Result::Ok(
             self.parser(
@@ -460,27 +459,23 @@ impl Server {
 
                 let mut patch = self.database.graph().new_patch();
 
-                patch
-                    .build_key(&params.new_name.clone().into())
-                    .insert_from_iter(
-                        self.database
-                            .graph()
-                            .collect(&key)
-                            .change_key(&key, &params.new_name.clone().into())
-                            .iter(),
-                    );
+                patch.build_key(&new_key).insert_from_iter(
+                    self.database
+                        .graph()
+                        .collect(&key)
+                        .change_key(&key, &new_key)
+                        .iter(),
+                );
 
                 affected_keys.iter().for_each(|affected_key| {
                     patch.build_key(&affected_key).insert_from_iter(
                         self.database
                             .graph()
                             .collect(&affected_key)
-                            .change_key(&key, &params.new_name.clone().into())
+                            .change_key(&key, &new_key)
                             .iter(),
                     );
                 });
-
-                let new_key = Key::from_rel_link_url(&params.new_name, relative_to);
 
                 let document_changes = affected_keys
                     .into_iter()
@@ -497,10 +492,9 @@ impl Server {
                         .to_full_url(&self.base_path)
                         .to_delete_file_op()])
                     .chain(vec![
-                        params.new_name.to_url(&self.base_path).to_create_file_op(),
-                        params
-                            .new_name
-                            .to_url(&self.base_path)
+                        new_key.to_full_url(&self.base_path).to_create_file_op(),
+                        new_key
+                            .to_full_url(&self.base_path)
                             .to_override_new_file_op(
                                 &self.base_path,
                                 patch.export_key(&new_key).expect("to have key"),
